@@ -86,6 +86,7 @@ func TestC08(t *testing.T) {
 		}
 		blockIdx := -1
 		ledgerN := 0
+		var restartFail error // the node did not come back from an orderly stop
 		verifhook.OnDurable = func(label string) {
 			if cur == nil || !cur.inCommit {
 				// a durable write outside Commit: snapshot it too, under its own name
@@ -113,12 +114,14 @@ func TestC08(t *testing.T) {
 				// the node that dies may have been stopped in an orderly way and started again just before this block
 				if nb := len(c.Hist.Blocks); nb >= 2 {
 					prev := c.Hist.Blocks[nb-2]
-					if gs, ok := src.(*GenSource); ok && pct(gs.t, 30, "orderlyRestartBefore") {
+					// (off by default: the stores of a node that has just been reopened are being compacted in the background,
+					// and a copy of its directory taken at that moment races with the compaction - see DESIGN section 11)
+					if gs, ok := src.(*GenSource); ok && os.Getenv("VERIF_C08_ORDERLY_RESTARTS") != "" && pct(gs.t, 30, "orderlyRestartBefore") {
 						prev.RestartAfter = true
 					}
-					if prev.RestartAfter && c.Sim != nil {
-						if _, perr := c.Sim.Restart(); perr != nil {
-							panic(perr)
+					if prev.RestartAfter && c.Sim != nil && os.Getenv("VERIF_C08_ORDERLY_RESTARTS") != "" {
+						if _, perr := c.Sim.Restart(); perr != nil && restartFail == nil {
+							restartFail = fmt.Errorf("before block %d: %v", blockIdx+1, perr)
 						}
 						st.label("orderly_restarts_of_the_node_that_dies", 1)
 					}
@@ -157,6 +160,11 @@ func TestC08(t *testing.T) {
 		c, err := RunPrimary("C08", src, opts)
 		verifhook.OnDurable = nil
 		out := &Outcome{Case: c}
+		if restartFail != nil {
+			// an orderly stop is the mildest way for a process to end: a node that does not come back from it is bricked
+			out.Err = violationf("the node did not come back from an orderly stop and restart %v", restartFail)
+			return out
+		}
 		if err != nil {
 			if _, isPanic := err.(*PanicError); isPanic {
 				return out
